@@ -227,20 +227,24 @@ Section LABELS.
       match next_tok s with
       | (TIdent name, s1) =>
         match next_tok s1 with
-        | (TCh 61, s2) =>
-          match next_tok s2 with
-          | (TStr text, s3) =>
-            match unq 0 text with
-            | None => None
-            | Some v =>
-              match next_tok s3 with
-              | (TCh 125, _) => Some (buf ++ [(name, v)])
-              | (TCh 44, s4) => parse_pairs f s4 (buf ++ [(name, v)])
-              | _ => None
+        | (TCh eq, s2) =>
+          if eq =? 61 then
+            match next_tok s2 with
+            | (TStr text, s3) =>
+              match unq 0 text with
+              | None => None
+              | Some v =>
+                match next_tok s3 with
+                | (TCh c, s4) =>
+                  if c =? 125 then Some (buf ++ [(name, v)])
+                  else if c =? 44 then parse_pairs f s4 (buf ++ [(name, v)])
+                  else None
+                | _ => None
+                end
               end
+            | _ => None
             end
-          | _ => None
-          end
+          else None
         | _ => None
         end
       | _ => None
@@ -256,7 +260,7 @@ Section LABELS.
 
   Definition parse_labels (text : string) (buf : labels) : option labels :=
     match next_tok (strip_bom text) with
-    | (TCh 123, s1) => parse_pairs (S (String.length text)) s1 buf
+    | (TCh b, s1) => if b =? 123 then parse_pairs (S (String.length text)) s1 buf else None
     | _ => None
     end.
 End LABELS.
@@ -320,6 +324,26 @@ Fixpoint print_pairs (blank : string) (ls : list (string * list qel)) : string :
 Definition print_labels (blank : string) (ls : list (string * list qel)) : string :=
   String "{" (print_pairs blank ls ++ String "}" EmptyString).
 Definition labels_written (ls : list (string * list qel)) : labels := map (fun l => (fst l, quoted_value (snd l))) ls.
+
+(* ---------------------------------------------------------------- the Loki protobuf push with its labels as text *)
+(* logsProtobuf.go Decode: every stream carries its label set as a text in this syntax, parsed into an empty buffer;
+   a text that is not accepted fails the request (None; chunks flushed earlier may have been sent already) *)
+Section PBTEXT.
+  Variable uletter udigit : string -> bool.
+  Fixpoint pb_streams_of_texts (body : list (string * list lentry)) : option (list lstream) :=
+    match body with
+    | [] => Some []
+    | s :: r =>
+      match parse_labels uletter udigit (fst s) [], pb_streams_of_texts r with
+      | Some l, Some rs => Some (LS l (snd s) :: rs)
+      | _, _ => None
+      end
+    end.
+End PBTEXT.
+Definition pair_ok (l : string * list qel) : bool := label_name_ok (fst l) && forallb qel_ok (snd l).
+(* a stream as a client writes it: a non-empty list of (name, value as written) and the entries *)
+Definition wstream_ok (s : list (string * list qel) * list lentry) : bool :=
+  negb (Nat.eqb (List.length (fst s)) 0) && forallb pair_ok (fst s).
 
 (* ---------------------------------------------------------------- generated case files *)
 (* the unicode oracle of a case: the runes outside ASCII that occur in the text, with unicode.IsLetter / IsDigit *)
